@@ -5,8 +5,9 @@
 EXTENDS AbbrSyntax
 CONSTANTS Alphabet, MaxLen
 Sym(c) == IF c = "NL" THEN "\n" ELSE IF c = "TAB" THEN "\t" ELSE IF c = "DQ" THEN "\"" ELSE Ch(c)
-Init == s = ""
-Next == Len(s) < MaxLen /\ \E c \in Alphabet : s' = s \o Sym(c)
-Spec == Init /\ [][Next]_s
-Dump == PrintT(<<"VEC", ToJson([s |-> s, out |-> SyntaxOut])>>)
+Init == InitSyntax
+Next == (Len(s) < MaxLen /\ \E c \in Alphabet : SetInput(s \o Sym(c))) \/ Tokenize \/ Parse
+Spec == Init /\ [][Next]_svars
+Tiling == Ready => TilingInv
+Dump == Ready => PrintT(<<"VEC", ToJson([s |-> s, out |-> SyntaxOut])>>)
 =============================================================================
